@@ -151,6 +151,7 @@ pub fn kernel_lanczos(b: &SparseMat, verbose: Verbosity) -> Vec<BitVec> {
         ws.push(ay.clone());
         invgs.push(ginv);
         masks.push(!0);
+        #[cfg(yamaquasi_verif)] crate::verif::ev(|| vhook::lz_init(b.nx, b.ny, &g, &(&g * invgs.last().unwrap()), &vs[0]));
     }
     if verbose >= Verbosity::Info {
         eprintln!("[Lanczos] Selected block 1 with rank {}", LSIZE);
@@ -172,6 +173,8 @@ pub fn kernel_lanczos(b: &SparseMat, verbose: Verbosity) -> Vec<BitVec> {
         // Compute <next, b> / <b, b> for each previous block
         let av = mul_aab(b, &next);
         let mut projs = 0;
+        #[cfg(yamaquasi_verif)] let mut vh_proj: Vec<usize> = vec![];
+        #[cfg(yamaquasi_verif)] let mut vh_freed: Vec<(usize, bool)> = vec![];
         for j in 0..ws.len() {
             if ws[j].0.is_empty() {
                 continue;
@@ -184,6 +187,7 @@ pub fn kernel_lanczos(b: &SparseMat, verbose: Verbosity) -> Vec<BitVec> {
                 // AWj has been consumed in V[j+1..i-1] no need to compute.
                 // Free memory: the block will no longer be used.
                 debug_assert!(&ws[j] * &av == SmallMat::default());
+                #[cfg(yamaquasi_verif)] vh_freed.push((j, &ws[j] * &av == SmallMat::default()));
                 vs[j].0 = vec![];
                 ws[j].0 = vec![];
                 continue;
@@ -194,6 +198,7 @@ pub fn kernel_lanczos(b: &SparseMat, verbose: Verbosity) -> Vec<BitVec> {
             next.muladd(&coef, w);
             debug_assert!(&mul_aab(b, w) * &next == SmallMat::default());
             projs += 1;
+            #[cfg(yamaquasi_verif)] vh_proj.push(j);
         }
         // Compute a non-degenerate subblock.
         let bv = b * &next;
@@ -206,6 +211,7 @@ pub fn kernel_lanczos(b: &SparseMat, verbose: Verbosity) -> Vec<BitVec> {
         } else {
             gram.rank_reverse()
         };
+        #[cfg(yamaquasi_verif)] { if rk == 0 && vhook::lz_keep(vs.len(), b.ny) { crate::verif::ev(|| vhook::lz_iter(vs.len(), reverse, rk, mask, &gram, None, &next, &vh_proj, &vh_freed, None)); } }
         if rk == 0 {
             // Lanczos iterations are finished, return kernel.
             if verbose >= Verbosity::Info {
@@ -240,6 +246,7 @@ pub fn kernel_lanczos(b: &SparseMat, verbose: Verbosity) -> Vec<BitVec> {
         ws.push(w);
         invgs.push(ginv);
         masks.push(!mask);
+        #[cfg(yamaquasi_verif)] { if vhook::lz_keep(vs.len() - 1, b.ny) { crate::verif::ev(|| vhook::lz_iter(vs.len() - 1, reverse, rk, mask, &gram, Some(&(invgs.last().unwrap() * &gram.mask(mask))), vs.last().unwrap(), &vh_proj, &vh_freed, Some(ws.last().unwrap() * &mul_aab(b, &y) == SmallMat::default()))); } }
     }
     // Check that Y is orthogonal to all blocks
     for w in &ws {
@@ -292,6 +299,7 @@ pub fn kernel_lanczos(b: &SparseMat, verbose: Verbosity) -> Vec<BitVec> {
             basis.swap_remove(i);
         }
     }
+    #[cfg(yamaquasi_verif)] crate::verif::ev(|| vhook::lz_exit(vs.len(), dimker, basis.len(), &by));
     if verbose >= Verbosity::Info {
         eprintln!("[Lanczos] final kernel rank <= {}", basis.len());
     }
@@ -1031,5 +1039,69 @@ fn test_lanczos() {
         if !w.none() {
             eprintln!("Kernel element {i} not in kernel!");
         }
+    }
+}
+
+#[cfg(yamaquasi_verif)]
+pub mod vhook {
+    //! Verification hooks of kernel_lanczos: event bodies (JSON without braces) for crate::verif::ev.
+    use super::*;
+
+    fn words(m: &SmallMat) -> String {
+        let v: Vec<String> = m.0.iter().map(|w| format!("\"{:x}\"", w)).collect();
+        format!("[{}]", v.join(","))
+    }
+    /// mask of the columns of a block that are not identically zero
+    fn nonzero_cols(v: &Block) -> Lane {
+        v.0.iter().fold(0, |a, &l| a | l)
+    }
+    /// Recording stops after this many blocks (a run needs about ny / 63 of them): a run that does not
+    /// terminate must not fill the memory of the recorder.
+    pub fn lz_keep(idx: usize, ny: usize) -> bool {
+        idx <= ny / 16 + 64
+    }
+    /// first block: dimensions, Gram matrix (AY)^T A (AY), the product Gram * inverse, non-zero columns
+    pub fn lz_init(nx: usize, ny: usize, g: &SmallMat, gginv: &SmallMat, v0: &Block) -> String {
+        format!(
+            "\"op\":\"lz_init\",\"nx\":{},\"ny\":{},\"lsize\":{},\"gram\":{},\"gginv\":{},\"nz\":\"{:x}\"",
+            nx, ny, LSIZE, words(g), words(gginv), nonzero_cols(v0)
+        )
+    }
+    /// one Lanczos iteration: index of the block, direction of the rank routine, rank and mask of the
+    /// selected sub-block, Gram matrix V^T A V of the new block, pseudoinverse * masked Gram matrix,
+    /// blocks projected against, blocks freed (with the value of the debug assertion), and whether
+    /// Y is A-orthogonal to the selected sub-block after its update.
+    pub fn lz_iter(
+        idx: usize,
+        reverse: bool,
+        rk: usize,
+        mask: Lane,
+        gram: &SmallMat,
+        ginvg: Option<&SmallMat>,
+        v: &Block,
+        proj: &[usize],
+        freed: &[(usize, bool)],
+        yorth: Option<bool>,
+    ) -> String {
+        let fr: Vec<String> = freed.iter().map(|(j, ok)| format!("[{},{}]", j, ok)).collect();
+        let mut s = format!(
+            "\"op\":\"lz_iter\",\"idx\":{},\"rev\":{},\"rk\":{},\"mask\":\"{:x}\",\"term\":{},\"gram\":{},\"nz\":\"{:x}\",\"proj\":{:?},\"freed\":[{}]",
+            idx, reverse, rk, mask, rk == 0, words(gram), nonzero_cols(v), proj, fr.join(",")
+        );
+        if let Some(m) = ginvg {
+            s += &format!(",\"ginvg\":{}", words(m));
+        }
+        if let Some(y) = yorth {
+            s += &format!(",\"yorth\":{}", y);
+        }
+        s
+    }
+    /// exit: number of blocks, candidate vectors before / after the removal of null vectors,
+    /// non-zero columns of B*Y
+    pub fn lz_exit(blocks: usize, dimker: usize, kept: usize, by: &Block) -> String {
+        format!(
+            "\"op\":\"lz_exit\",\"blocks\":{},\"dimker\":{},\"kept\":{},\"bynz\":\"{:x}\"",
+            blocks, dimker, kept, nonzero_cols(by)
+        )
     }
 }
